@@ -13,7 +13,8 @@ import audit_facts
 EXPLANATION = """
 (1) No per-worker exclusive bind: every socket bind reachable from a worker thread's entry (the closure passed to spawn inside the worker loop) is made on a
 builder with reuse_port(true), or binds port 0.  (2) Lock discipline and start-up panics: the configuration MutexGuard taken in the worker prologue is
-dropped before the serving loop; T-nopanic over Server::new and display_config (the code that runs while the guard is held): every potential panic is
+dropped before the serving loop, and wherever a function of the server binary locks the same mutex twice the first guard is dropped on every path
+before the second lock() (no self-deadlock during start-up); T-nopanic over Server::new and display_config (the code that runs while the guard is held): every potential panic is
 proven, typed or audited as an operating-system condition / a fact guaranteed by configuration validation, with the linking facts re-checked.
 (3) Validation covers use: seed length, fault ratio and interface:port preconditions of Server::new are implied by is_valid_config, and workers are spawned only
 after it returned true.  (4) Worker provisioning: the spawn loop runs 0..num_workers, each iteration binds its own socket and names its thread.
